@@ -3,17 +3,45 @@
 // print!/println!, holding the argument values; a separator (tab / row break) is an entry without arguments.
 verus! {
 
-pub enum Flags { OVERFLOW, DIRECTION, INTERRUPT, TRAP, SIGN, ZERO, AUX_CARRY, PARITY, CARRY }
+//@item src/lib/util/flag_util.rs enum Flags
+//@item src/lib/arch.rs const FLAG_OVERFLOW
+//@item src/lib/arch.rs const FLAG_DIRECTION
+//@item src/lib/arch.rs const FLAG_INTERRUPT
+//@item src/lib/arch.rs const FLAG_TRAP
+//@item src/lib/arch.rs const FLAG_SIGN
+//@item src/lib/arch.rs const FLAG_ZERO
+//@item src/lib/arch.rs const FLAG_AUX_CARRY
+//@item src/lib/arch.rs const FLAG_PARITY
+//@item src/lib/arch.rs const FLAG_CARRY
 pub open spec fn flag_pos(f: Flags) -> int {
     match f { Flags::OVERFLOW => 2048int, Flags::DIRECTION => 1024, Flags::INTERRUPT => 512, Flags::TRAP => 256,
               Flags::SIGN => 128, Flags::ZERO => 64, Flags::AUX_CARRY => 16, Flags::PARITY => 4, Flags::CARRY => 1 }
 }
 pub open spec fn bit(reg: u16, f: Flags) -> int { (reg as int / flag_pos(f)) % 2 }
-// assumed contract, discharged by Kani unit l0_get_flag_state
-#[verifier::external_body]
-pub fn get_flag_state(reg: u16, flag: Flags) -> (r: bool)
+// the REAL get_flag_state (flag_util.rs, verbatim); the bit-vector facts are hints
+pub proof fn lemma_flag_bits(reg: u16)
+    ensures
+        (reg & (1u16 << 11) != 0) == ((reg / 2048) % 2 == 1), (reg & (1u16 << 10) != 0) == ((reg / 1024) % 2 == 1),
+        (reg & (1u16 << 9) != 0) == ((reg / 512) % 2 == 1), (reg & (1u16 << 8) != 0) == ((reg / 256) % 2 == 1),
+        (reg & (1u16 << 7) != 0) == ((reg / 128) % 2 == 1), (reg & (1u16 << 6) != 0) == ((reg / 64) % 2 == 1),
+        (reg & (1u16 << 4) != 0) == ((reg / 16) % 2 == 1), (reg & (1u16 << 2) != 0) == ((reg / 4) % 2 == 1),
+        (reg & (1u16 << 0) != 0) == ((reg / 1) % 2 == 1),
+{
+    assert((reg & (1u16 << 11) != 0) == ((reg / 2048) % 2 == 1)) by (bit_vector);
+    assert((reg & (1u16 << 10) != 0) == ((reg / 1024) % 2 == 1)) by (bit_vector);
+    assert((reg & (1u16 << 9) != 0) == ((reg / 512) % 2 == 1)) by (bit_vector);
+    assert((reg & (1u16 << 8) != 0) == ((reg / 256) % 2 == 1)) by (bit_vector);
+    assert((reg & (1u16 << 7) != 0) == ((reg / 128) % 2 == 1)) by (bit_vector);
+    assert((reg & (1u16 << 6) != 0) == ((reg / 64) % 2 == 1)) by (bit_vector);
+    assert((reg & (1u16 << 4) != 0) == ((reg / 16) % 2 == 1)) by (bit_vector);
+    assert((reg & (1u16 << 2) != 0) == ((reg / 4) % 2 == 1)) by (bit_vector);
+    assert((reg & (1u16 << 0) != 0) == ((reg / 1) % 2 == 1)) by (bit_vector);
+}
+//@fn src/lib/util/flag_util.rs get_flag_state
+//@contract
     ensures r == (bit(reg, flag) == 1),
-{ unimplemented!() }
+//@before match flag :: proof { lemma_flag_bits(reg); }
+//@end
 
 pub open spec fn b2u(b: int) -> u64 { if b == 1 { 1u64 } else { 0u64 } }
 
